@@ -200,7 +200,7 @@ def check(pid, tier, replay=None):
         hcfgs = harness_cfgs(geo, tier, rng)
         for hi, hc in enumerate(hcfgs):
             hists = []
-            nsim = 60 if quick else 600
+            nsim = 60 if quick else 250
             rs = vlib.run_tlc("LocalStore", model_cfg(geo, clients=["c1", "c2", "c3"], maxops=9, corr=corr and hc["factory"] == "cas",
                                                       maxcorrupt=2 if corr_prop else (1 if corr else 0), props="none", view=False,
                                                       constraint="EmitScript"),
@@ -245,7 +245,7 @@ def check(pid, tier, replay=None):
     rdir = os.path.join(work, "rand")
     os.makedirs(rdir)
     rc, out = vlib.run_harness(binary, "TestRandom", timeout=3400, env={"STORE_OUT": rdir, "VERIF_SEED": sd, "STORE_ACCESS": "flat",
-                                                       "STORE_RUNS": 150 if quick else 3000, "STORE_OPS": 14,
+                                                       "STORE_RUNS": 150 if quick else 2000, "STORE_OPS": 14,
                                                        "STORE_FREE_RUNS": 20 if quick else 300, "STORE_FREE_OPS": 40 if quick else 200,
                                                        "STORE_CORRUPT": 1 if corr_prop else 0})
     if rc != 0:
@@ -257,7 +257,7 @@ def check(pid, tier, replay=None):
         hdir = os.path.join(work, "randhier")
         os.makedirs(hdir)
         rc, out = vlib.run_harness(binary, "TestRandom", timeout=3400, env={"STORE_OUT": hdir, "VERIF_SEED": sd, "STORE_ACCESS": "hier",
-                                                           "STORE_RUNS": 400 if quick else 6000, "STORE_OPS": 16,
+                                                           "STORE_RUNS": 400 if quick else 2500, "STORE_OPS": 16,
                                                            "STORE_FREE_RUNS": 20 if quick else 300, "STORE_FREE_OPS": 40 if quick else 200})
         if rc != 0:
             raise Broken("store random harness (hier) failed:\n" + out[-3000:])
@@ -267,7 +267,7 @@ def check(pid, tier, replay=None):
         pdir = os.path.join(work, "persist")
         os.makedirs(pdir)
         rc, out = vlib.run_harness(binary, "TestCrash", timeout=3400, env={"STORE_OUT": pdir, "VERIF_SEED": sd, "CRASH_MODE": "live",
-                                                          "CRASH_WORKLOADS": 80 if quick else 1500, "CRASH_OPS_MIN": 10})
+                                                          "CRASH_WORKLOADS": 80 if quick else 600, "CRASH_OPS_MIN": 10})
         if rc != 0:
             raise Broken("persistent live harness failed:\n" + out[-3000:])
         traces.append(os.path.join(pdir, "traces.ndjson"))
